@@ -17,6 +17,7 @@ namespace GoUtils.Generated.Vfs
 open GoUtils.VfsTable
 def ok : Bool := false
 def methods : List MethodFact := []
+def loopsTouchingBackendWithoutContextTest : List String := ["?"]
 end GoUtils.Generated.Vfs
 `
 
@@ -48,6 +49,7 @@ func extractVfs(root string) (string, map[string]any, error) {
 		return "", nil, err
 	}
 	var fns []*vfsFn
+	var loopsNoCtx []string
 	byName := map[string]*vfsFn{}
 	var fileNames []string
 	for n := range p.files {
@@ -139,6 +141,60 @@ func extractVfs(root string) (string, map[string]any, error) {
 				}
 				return true
 			})
+			if f.hasCtx {
+				// loops: a loop whose body touches the filesystem through a call that does not take the context
+				// must test the context itself (once per iteration)
+				ast.Inspect(fd.Body, func(n ast.Node) bool {
+					var body *ast.BlockStmt
+					switch l := n.(type) {
+					case *ast.ForStmt:
+						body = l.Body
+					case *ast.RangeStmt:
+						body = l.Body
+					}
+					if body == nil {
+						return true
+					}
+					direct, touchesWithoutCtx := false, false
+					ast.Inspect(body, func(m ast.Node) bool {
+						if _, isLit := m.(*ast.FuncLit); isLit {
+							return false // closures run elsewhere (goroutines, callbacks)
+						}
+						c, ok := m.(*ast.CallExpr)
+						if !ok {
+							return true
+						}
+						src := p.src(c.Fun)
+						if src == "parallelisation.DetermineContextError" {
+							direct = true
+							return true
+						}
+						takesCtx := false
+						for _, a := range c.Args {
+							if isIdent(a, "ctx") {
+								takesCtx = true
+							}
+						}
+						touches := strings.HasPrefix(src, recv+".")
+						if id, ok := c.Fun.(*ast.Ident); ok && !touches {
+							for _, a := range c.Args {
+								if isIdent(a, recv) {
+									touches = true
+									_ = id
+								}
+							}
+						}
+						if touches && !takesCtx && src != recv+".checkWhetherUnderlyingResourceIsClosed" && src != recv+".PathSeparator" && src != recv+".pathConverter" {
+							touchesWithoutCtx = true
+						}
+						return true
+					})
+					if touchesWithoutCtx && !direct {
+						loopsNoCtx = append(loopsNoCtx, f.name)
+					}
+					return true
+				})
+			}
 			if prev, dup := byName[f.name]; dup {
 				_ = prev
 				continue // platform variants: first one wins (build context already filtered)
@@ -214,7 +270,32 @@ func extractVfs(root string) (string, map[string]any, error) {
 		}
 	}
 	summary["ctxEntryPoints"] = ctxEntry
+	summary["loopsTouchingBackendWithoutContextTest"] = uniqueSorted(loopsNoCtx)
 	lean := "import GoUtils.Model.VfsTable\nnamespace GoUtils.Generated.Vfs\nopen GoUtils.VfsTable\ndef ok : Bool := true\ndef methods : List MethodFact := [\n  " +
-		strings.Join(items, ",\n  ") + "]\nend GoUtils.Generated.Vfs\n"
+		strings.Join(items, ",\n  ") + "]\n" +
+		"/-- context-accepting functions with a loop whose body touches the filesystem through a call that does not take the context and that does not test the context itself -/\n" +
+		"def loopsTouchingBackendWithoutContextTest : List String := [" + strings.Join(quoteAll(uniqueSorted(loopsNoCtx)), ", ") + "]\n" +
+		"end GoUtils.Generated.Vfs\n"
 	return lean, summary, nil
+}
+
+func uniqueSorted(l []string) []string {
+	m := map[string]bool{}
+	var out []string
+	for _, x := range l {
+		if !m[x] {
+			m[x] = true
+			out = append(out, x)
+		}
+	}
+	sort.Strings(out)
+	return out
+}
+
+func quoteAll(l []string) []string {
+	out := make([]string, len(l))
+	for i, x := range l {
+		out[i] = leanStr(x)
+	}
+	return out
 }
